@@ -85,6 +85,8 @@ class Recorder:
         self.calls = []
         self.objects = []
         self.frames = []
+        self.effects = {}       # tag -> names dispatched on the device while handle_frame(frame) ran
+        self._current = []
 
     def install(self):
         from pyplumio.devices import PhysicalDevice
@@ -101,16 +103,30 @@ class Recorder:
                 if not any(f is frame for f in rec.frames):
                     rec.frames.append(frame)
                     rec.calls.append([rec.objects.index(dev), tag, int(frame.frame_type)])
-                return orig(dev, frame)
+                rec._current.append(tag)
+                try:
+                    return orig(dev, frame)
+                finally:
+                    rec._current.pop()
             return handle_frame
         EcoMAX.handle_frame = wrap(self._orig_eco)
         PhysicalDevice.handle_frame = wrap(self._orig_base)
+        from pyplumio.helpers.event_manager import EventManager
+        self._orig_nowait = EventManager.dispatch_nowait
+
+        def dispatch_nowait(em, name, value):
+            if rec._current:
+                rec.effects.setdefault(rec._current[-1], set()).add(name)
+            return rec._orig_nowait(em, name, value)
+        EventManager.dispatch_nowait = dispatch_nowait
 
     def uninstall(self):
         from pyplumio.devices import PhysicalDevice
         from pyplumio.devices.ecomax import EcoMAX
         EcoMAX.handle_frame = self._orig_eco
         PhysicalDevice.handle_frame = self._orig_base
+        from pyplumio.helpers.event_manager import EventManager
+        EventManager.dispatch_nowait = self._orig_nowait
 
 
 async def settle(n=10):
